@@ -174,6 +174,11 @@ func (a *Analyzer) execBin(ctx int, v *ssa.BinOp, s *State) {
 			a.set(s, ctx, v, AInt{lx.add(ly)})
 			return
 		case token.SUB:
+			if isUnsigned(v.Type()) && !s.provesLE(ly.sub(lx)) {
+				// x - y wraps around unless x >= y
+				a.set(s, ctx, v, a.freshFor(s, ctx, v))
+				return
+			}
 			a.set(s, ctx, v, AInt{lx.sub(ly)})
 			return
 		case token.MUL:
@@ -185,6 +190,13 @@ func (a *Analyzer) execBin(ctx int, v *ssa.BinOp, s *State) {
 				a.set(s, ctx, v, AInt{ly.scale(lx.k)})
 				return
 			}
+		case token.QUO, token.REM:
+			if isIntType(v.Type()) {
+				nz := (ly.isConst() && ly.k != 0) || s.provesLE(konst(1).sub(ly)) || s.provesLE(ly.addK(1))
+				a.oblige(v, "div", v.X.Name()+" "+v.Op.String()+" "+v.Y.Name()+" with a non-zero divisor", nz, s)
+			}
+		}
+		switch v.Op {
 		case token.QUO:
 			if ly.isConst() && ly.k > 0 {
 				r := a.freshFor(s, ctx, v).(AInt)
@@ -271,7 +283,44 @@ func (a *Analyzer) execConvert(ctx int, v ssa.Value, x ssa.Value, s *State) {
 	from, to := x.Type(), v.Type()
 	switch {
 	case isIntType(from) && isIntType(to):
-		a.set(s, ctx, v, av) // mathematical integers
+		// integers are mathematical; a conversion keeps the value only when it
+		// provably fits the target type, otherwise the result is any value of
+		// that type (wrap-around / sign change)
+		l, isLin := asLin(av)
+		if !isLin {
+			a.set(s, ctx, v, a.freshFor(s, ctx, v))
+			return
+		}
+		fu, tu := isUnsigned(from), isUnsigned(to)
+		fw, tw := intWidth(from), intWidth(to)
+		fitsLow := tu == fu || !tu || s.provesLE(l.scale(-1))
+		if !tu && fu {
+			fitsLow = true
+		}
+		fitsHigh := false
+		switch {
+		case tw > fw, tw == fw && tu == fu, tw == fw && tu && !fu:
+			fitsHigh = true
+		default:
+			bits := tw
+			if !tu {
+				bits--
+			}
+			if bits >= 62 {
+				fitsHigh = s.provesUpper(l, (int64(1)<<62)-1)
+			} else {
+				fitsHigh = s.provesUpper(l, (int64(1)<<uint(bits))-1)
+			}
+			if !tu && !fu && tw < fw {
+				// narrowing signed: also the lower bound
+				fitsLow = s.provesLE(l.scale(-1).addK(-(int64(1) << uint(tw-1))))
+			}
+		}
+		if fitsLow && fitsHigh {
+			a.set(s, ctx, v, av)
+		} else {
+			a.set(s, ctx, v, a.freshFor(s, ctx, v))
+		}
 	case (isStringType(from) || isSliceType(from)) && (isStringType(to) || isSliceType(to)):
 		if sx, ok := av.(AStr); ok {
 			r := a.freshFor(s, ctx, v).(AStr)
@@ -409,4 +458,21 @@ func (a *Analyzer) derefNil(ctx int, in ssa.Instruction, x ssa.Value, s *State) 
 func isErrorType(t types.Type) bool {
 	n, ok := types.Unalias(t).(*types.Named)
 	return ok && n.Obj().Pkg() == nil && n.Obj().Name() == "error"
+}
+
+// intWidth is the size in bits of an integer type (int, uint, uintptr: 64).
+func intWidth(t types.Type) int {
+	b, ok := t.Underlying().(*types.Basic)
+	if !ok {
+		return 64
+	}
+	switch b.Kind() {
+	case types.Int8, types.Uint8:
+		return 8
+	case types.Int16, types.Uint16:
+		return 16
+	case types.Int32, types.Uint32:
+		return 32
+	}
+	return 64
 }
